@@ -208,7 +208,7 @@ def per_program(p):
 
 
 def plan(tier, seed):
-    n = 100 if tier == "quick" else 2000
+    n = 300 if tier == "quick" else 2000
     depth = 4 if tier == "quick" else 6
     return [{"seed": seed * 1000 + k, "n": n, "depth": depth, "adversarial": k % 4 == 3} for k in range(16)]
 
